@@ -764,7 +764,11 @@ func (self PathNode) marshal(p *binary.BinaryProtocol, rootLayer bool, opts *Opt
 				}
 
 				if wt == proto.VarintType {
-					err = p.WriteInt64(int64(v.Path.int()))
+					if kt == proto.SINT32 || kt == proto.SINT64 {
+						err = p.WriteSint64(int64(v.Path.int()))
+					} else {
+						err = p.WriteInt64(int64(v.Path.int()))
+					}
 				} else if wt == proto.Fixed32Type {
 					err = p.WriteSfixed32(int32(v.Path.int()))
 				} else if wt == proto.Fixed64Type {
